@@ -21,9 +21,10 @@ import (
 func main() { hx.Main("C13", run) }
 
 type H struct {
-	r   *hx.Run
-	rng *gen.Rng
-	t   *term.VerifC13Term
+	r    *hx.Run
+	rng  *gen.Rng
+	t    *term.VerifC13Term
+	host *host
 }
 
 func modesOf(n int) term.VerifC13Modes {
@@ -296,6 +297,70 @@ func (h *H) keySample() map[string][]vaxis.Key {
 		}
 	}
 	fromBytes("decoded-other-scripts", "\x1b[1092::97;5u")
+	// text productions: grapheme clusters of several code points, caps lock, AltGr level, compose (the child
+	// must receive the text, not the key code)
+	for _, s := range []string{"e\u0301", "E\u0301", "👨\u200d👩\u200d👧", "🇩🇪", "☺\ufe0f", "क्ष", "a\u0308\u0323"} {
+		fromBytes("text-productions", s)
+	}
+	for _, k := range []vaxis.Key{
+		{Keycode: 'a', Modifiers: vaxis.ModCapsLock, Text: "A"}, {Keycode: 'a', Modifiers: vaxis.ModCapsLock | vaxis.ModShift, ShiftedCode: 'A', Text: "a"},
+		{Keycode: 'q', Text: "@"}, {Keycode: 'e', Text: "€"}, {Keycode: 'e', Text: "é"}, {Keycode: '^', Text: "ê"}, {Keycode: 'a', Modifiers: vaxis.ModNumLock, Text: "a"},
+		{Keycode: ' ', Text: " "}, {Keycode: vaxis.KeyEnter, Text: "\r"}, {Keycode: vaxis.KeyTab, Text: "\t"}, {Keycode: 'x', Text: "xyz", EventType: vaxis.EventPaste},
+		{Keycode: 'e', Text: "e\u0301", EventType: vaxis.EventPaste}, {Keycode: 'e', ShiftedCode: 'E', Modifiers: vaxis.ModShift, Text: "E\u0301", EventType: vaxis.EventPaste},
+		{Keycode: 'q', Modifiers: vaxis.ModAlt, Text: "@"}, {Keycode: 'a', Modifiers: vaxis.ModSuper, Text: "a"}, {Keycode: 'a', EventType: vaxis.EventRelease},
+	} {
+		add("text-productions", k)
+	}
+	fromBytes("text-productions", kitty('a', 64, 'A', "A"))
+	// Ctrl (+Alt, +Shift) on every printable ASCII key and some others: total description of the Ctrl branch
+	for c := rune(0x20); c < 0x7F; c++ {
+		for _, m := range []vaxis.ModifierMask{vaxis.ModCtrl, vaxis.ModCtrl | vaxis.ModAlt, vaxis.ModCtrl | vaxis.ModShift, vaxis.ModCtrl | vaxis.ModAlt | vaxis.ModShift} {
+			add("ctrl-x-every-ascii-key", vaxis.Key{Keycode: c, Modifiers: m})
+		}
+	}
+	for _, c := range []rune{'é', 'ф', 'Ф', 'ß', '世', '🔥', 0x80, 0x9f, 0xa0, 0xff, 0x100, 0xd7ff, 0xe000, 0xfffd, unicode.MaxRune - 1} {
+		add("ctrl-x-non-ascii", vaxis.Key{Keycode: c, Modifiers: vaxis.ModCtrl})
+		add("ctrl-x-non-ascii", vaxis.Key{Keycode: c, Modifiers: vaxis.ModCtrl | vaxis.ModAlt})
+	}
+	// cased letters of any script: plain, Alt, Shift and Alt+Shift in every event shape; the hypotheses of
+	// shift_letter_roundtrip (CasedPair) are checked on Go's tables for each
+	for _, r := range h.casedSample() {
+		C := unicode.ToUpper(r)
+		ok := true
+		if !unicode.IsUpper(C) {
+			h.r.Count("hyp_violated:isUpper(toUpper(c))")
+			ok = false
+		}
+		if unicode.ToLower(C) != r {
+			h.r.Count("hyp_violated:toLower(toUpper(c))=c")
+			ok = false
+		}
+		if C == r {
+			h.r.Count("hyp_violated:toUpper(c)!=c")
+			ok = false
+		}
+		if ok {
+			h.r.Count("hyp_ok")
+		}
+		cl := "cased-letters-hyp-ok"
+		if !ok {
+			cl = "cased-letters-hyp-violated"
+		}
+		add(cl, vaxis.Key{Keycode: r})
+		add(cl, vaxis.Key{Keycode: r, Text: string(r)})
+		add(cl, vaxis.Key{Keycode: r, Modifiers: vaxis.ModAlt})
+		for _, m := range []vaxis.ModifierMask{vaxis.ModShift, vaxis.ModShift | vaxis.ModAlt, vaxis.ModShift | vaxis.ModCapsLock} {
+			add(cl, vaxis.Key{Keycode: r, Modifiers: m})
+			add(cl, vaxis.Key{Keycode: r, Modifiers: m, ShiftedCode: C})
+			if m&vaxis.ModAlt == 0 {
+				add(cl, vaxis.Key{Keycode: r, Modifiers: m, Text: string(C)})
+				add(cl, vaxis.Key{Keycode: r, Modifiers: m, ShiftedCode: C, Text: string(C)})
+			}
+		}
+		// as the host decodes the upper-case letter typed on a legacy terminal
+		fromBytes(cl, string(C))
+		fromBytes(cl, "\x1b"+string(C))
+	}
 	// hand-made events (correspondence of encodeXterm on odd inputs)
 	for _, k := range []vaxis.Key{
 		{Keycode: unicode.MaxRune}, {Keycode: unicode.MaxRune - 1}, {Keycode: unicode.MaxRune, Modifiers: vaxis.ModAlt}, {Keycode: -1}, {Keycode: -1, Modifiers: vaxis.ModCtrl},
@@ -306,6 +371,27 @@ func (h *H) keySample() map[string][]vaxis.Key {
 		{Keycode: 'a', Modifiers: 256}, {Keycode: 'a', Modifiers: 256 | 4}, {Keycode: 'a', ShiftedCode: -5, Modifiers: vaxis.ModShift},
 	} {
 		add("hand-made", k)
+	}
+	return out
+}
+
+// casedSample: lower-case letters of many scripts (all of them in the thorough tier) plus the letters whose
+// case mappings are not one-to-one.
+func (h *H) casedSample() []rune {
+	special := []rune{'ß', 'ǆ', 'ǅ', 'ı', 'ſ', 'ς', 'σ', 'µ', 'ÿ', 'ŉ', 'ǰ', 'ΐ', 'ի', 'ᲀ', 'ẛ', 'ι', 'ͅ', 'k', 'å', 'ω', 'ⅰ', 'ⓐ', 'ａ', '𐐨', '𞤢', 'ꭰ', 'ა', 'ᏸ'}
+	var all []rune
+	for r := rune(0x80); r < unicode.MaxRune; r++ {
+		if unicode.IsLower(r) {
+			all = append(all, r)
+		}
+	}
+	if h.r.Thorough {
+		return append(special, all...)
+	}
+	rng := h.rng.Fork(99)
+	out := append([]rune(nil), special...)
+	for i := 0; i < 120; i++ {
+		out = append(out, all[rng.Intn(len(all))])
 	}
 	return out
 }
@@ -403,7 +489,7 @@ func run(r *hx.Run) error {
 	}
 	r.Note("mouse: all MouseButton constants x press/release/motion x 128 mode combinations", true)
 	h.childStreams()
-	return nil
+	return h.pasteStreams()
 }
 
 func (h *H) replay(op []string) (string, bool) {
@@ -413,6 +499,8 @@ func (h *H) replay(op []string) (string, bool) {
 	switch op[0] {
 	case "ckey", "cmouse", "cpaste":
 		return h.childReplay(op)
+	case "ppaste":
+		return h.ppasteReplay(op)
 	case "key":
 		if len(op) != 4 {
 			return "", false
